@@ -155,6 +155,30 @@ func fixedScenarios(rng *wh.Rng, thorough bool) []Scenario {
 			out = append(out, Scenario{AckErrs: ack, Shared: shared, TwoHandlers: true, Seed: rng.Next(), Reqs: reqs})
 		}
 	}
+	// a configured ListenForReplyTimeout of zero / a negative one: the time-out has passed at once, the listener ends at once
+	for _, ack := range []bool{false, true} {
+		for _, to := range []int{-1, -2} {
+			for _, nohook := range []bool{false, true} {
+				out = append(out, Scenario{AckErrs: ack, Shared: ack == nohook, TimeoutMs: to, NoHook: nohook, Seed: rng.Next(), Reqs: []ReqSpec{
+					{Caller: "drain", End: "timeout", Outcomes: []string{"ok"}}, {Caller: "never", End: "timeout", Outcomes: []string{"slow"}},
+					{Caller: "one", End: "timeout", Outcomes: []string{"err", "ok"}}, {Caller: "reply", End: "cancel", Outcomes: []string{"ok"}},
+					{Caller: "drain", End: "timeout", Outcomes: []string{"slow"}},
+				}})
+			}
+		}
+	}
+	// a request inside a request on the shared reply topic, the bus propagating the handled message's metadata to outgoing
+	// commands (OnSend): the inner and the outer requester each get their own reply
+	for _, ack := range []bool{false, true} {
+		for _, shared := range []bool{true, false} {
+			out = append(out, Scenario{AckErrs: ack, Shared: shared, TwoHandlers: true, Seed: rng.Next(), Reqs: []ReqSpec{
+				{Caller: "drain", End: "cancel", Outcomes: []string{"nest"}}, {Caller: "inner", End: "cancel", Outcomes: []string{"ok"}},
+				{Caller: "reply", End: "cancel", Outcomes: []string{"nest"}}, {Caller: "inner", End: "cancel", Outcomes: []string{"err", "ok"}},
+				{Caller: "drain", End: "parent", Outcomes: []string{"err", "ok"}}, {Caller: "drain", End: "cancel", Outcomes: []string{"ok"}},
+				{Caller: "never", End: "cancel", Outcomes: []string{"nest"}}, {Caller: "inner", End: "cancel", Outcomes: []string{"bad"}},
+			}})
+		}
+	}
 	// timeouts
 	for _, ack := range []bool{false, true} {
 		for _, shared := range []bool{true, false} {
@@ -201,6 +225,9 @@ func randomScenario(rng *wh.Rng, n int, ack, shared *bool) Scenario {
 	switch rng.Intn(8) {
 	case 0:
 		sc.TimeoutMs, small = 15+rng.Intn(30), true
+		if rng.Intn(4) == 0 {
+			sc.TimeoutMs = -1 - rng.Intn(2) // zero / negative: passed at once
+		}
 	case 1:
 		sc.TimeoutMs = 3600000
 	}
@@ -264,6 +291,28 @@ func randomScenario(rng *wh.Rng, n int, ack, shared *bool) Scenario {
 	case 2:
 		sc.HookWait = true
 	}
+	if sc.TwoHandlers && !small && sc.TimeoutMs >= 0 && !sc.BlockReplies && !sc.CloseSub && sc.HandlerTimeoutMs == 0 && rng.Intn(2) == 0 {
+		// requests inside requests: the handler of request 2j asks the other handler (request 2j+1) while it works
+		for i := 0; i+1 < len(sc.Reqs); i += 2 {
+			if rng.Intn(2) == 0 {
+				continue
+			}
+			sc.Reqs[i].Caller = []string{"drain", "reply", "never", "one"}[rng.Intn(4)]
+			sc.Reqs[i].Outcomes = []string{"nest"}
+			if sc.Reqs[i].End == "timeout" {
+				sc.Reqs[i].End = "cancel"
+			}
+			sc.Reqs[i].DeadlineMs = 0
+			in := ReqSpec{Caller: "inner", End: "cancel"}
+			for _, o := range sc.Reqs[i+1].Outcomes {
+				if o == "slow" || o == "nest" {
+					o = "ok"
+				}
+				in.Outcomes = append(in.Outcomes, o)
+			}
+			sc.Reqs[i+1] = in
+		}
+	}
 	sc.Normalise()
 	if rng.Intn(3) == 0 {
 		sc.Foreign = 1 + rng.Intn(4)
@@ -274,7 +323,7 @@ func randomScenario(rng *wh.Rng, n int, ack, shared *bool) Scenario {
 		for i, q := range sc.Reqs {
 			replies := 0
 			for _, o := range q.Outcomes {
-				if o == "ok" || o == "err" || o == "bad" || o == "ctxok" || o == "ctxerr" {
+				if o == "ok" || o == "err" || o == "bad" || o == "ctxok" || o == "ctxerr" || o == "nest" {
 					replies++
 				}
 			}
@@ -288,7 +337,7 @@ func randomScenario(rng *wh.Rng, n int, ack, shared *bool) Scenario {
 		for i, q := range sc.Reqs {
 			replies := 0
 			for _, o := range q.Outcomes {
-				if o == "ok" || o == "err" || o == "bad" || o == "ctxok" || o == "ctxerr" {
+				if o == "ok" || o == "err" || o == "bad" || o == "ctxok" || o == "ctxerr" || o == "nest" {
 					replies++
 				}
 			}
